@@ -716,7 +716,7 @@ pub fn check_main(prop: &str, tier: &str) -> i32 {
     let (engine, level, n, rule) = match prop {
         "C08" => ("A", "exploration", if tier == "thorough" { 200_000 } else { 30_000 }, crate::engine_a::RULE),
         "C09" => ("K", "fault_enumeration", if tier == "thorough" { 5000 } else { 600 }, crate::engine_k::RULE),
-        "C10" => ("F", "fault_enumeration", if tier == "thorough" { 1500 } else { 120 }, crate::engine_f::RULE),
+        "C10" => ("F", "fault_enumeration", if tier == "thorough" { 6000 } else { 500 }, crate::engine_f::RULE),
         _ => match spec(prop) {
             Some(s) => (s.engine, s.level, if tier == "thorough" { s.thorough } else { s.quick }, s.rule),
             None => {
